@@ -580,6 +580,9 @@ pub fn c15(o: &Opts) -> i32 {
     for _ in 0..if q { 10 } else { 150 } { units.push(U::Supplied(gen::random_setup(&mut r), "random set-up".into(), 1)); }
     // after any legal history: one Game, both sides' moves entered by the harness, the engine asked at every position
     units.push(U::History(Pos::from_fen("7k/7p/8/8/8/8/P7/K7 w - - 0 1").unwrap(), parse_path(&Pos::from_fen("7k/7p/8/8/8/8/P7/K7 w - - 0 1").unwrap(), &["a1b1", "h8g8", "b1b2", "g8h8", "b2a1"].iter().map(|s| s.to_string()).collect::<Vec<_>>()).unwrap(), 2));
+    // a long quiet shuffle: positions recur three times and the half-move clock passes 100 while moves remain
+    { let kn = Pos::from_fen("8/8/4k3/3Nn3/3nN3/4K3/8/8 w - - 0 1").unwrap(); let path = gen::random_game(&kn, &mut r, Policy::Shuffle, 112); units.push(U::History(kn, path, 1)); }
+    { let st = Pos::start(); if let Ok(path) = parse_path(&st, &["g1f3", "g8f6", "f3g1", "f6g8", "g1f3", "g8f6", "f3g1", "f6g8", "g1f3"].iter().map(|s| s.to_string()).collect::<Vec<_>>()) { units.push(U::History(st, path, 2)); } }
     for g in 0..if q { 14 } else { 150 } {
         let root = match g % 3 { 0 => gen::random_ending(&mut r), 1 => Pos::start(), _ => gen::random_setup_profile(&mut r, 0) };
         let n = 16 + r.below(24);
@@ -625,12 +628,12 @@ pub fn c15(o: &Opts) -> i32 {
                 let mut p = root.clone();
                 for (i, m) in path.iter().enumerate() {
                     if ctx.budget_used() > 0.95 { break; }
-                    if (game.board().halfmove_clock() as u64) < 90 { ask_engine(&ctx, &mut game, &p, 1, "after-a-history", &json!({"root_fen": root.to_fen(), "path": path_str(root, &path[..i]), "fen": p.to_fen(), "depth": depth})); }
+                    if true { ask_engine(&ctx, &mut game, &p, 1, "after-a-history", &json!({"root_fen": root.to_fen(), "path": path_str(root, &path[..i]), "fen": p.to_fen(), "depth": depth})); }
                     if matches!(m.kind, Kind::Promo(x) | Kind::PromoCapture(x) if x != Pc::Q) { break; }
                     if !matches!(par::guarded(|| game.apply_chess_move_by_from_to_coordinates(bb(m.from), bb(m.to))), Ok(Ok(_))) { ctx.count("history_could_not_be_entered_(C14_business)", 1); break; }
                     game.board_mut().toggle_turn();
                     p = p.make(m);
-                    if i + 1 == path.len() && (game.board().halfmove_clock() as u64) < 90 { ask_engine(&ctx, &mut game, &p, 1, "after-a-history", &json!({"root_fen": root.to_fen(), "path": path_str(root, path), "fen": p.to_fen(), "depth": depth})); }
+                    if i + 1 == path.len() { ask_engine(&ctx, &mut game, &p, 1, "after-a-history", &json!({"root_fen": root.to_fen(), "path": path_str(root, path), "fen": p.to_fen(), "depth": depth})); }
                 }
                 ctx.distinct(hash_bytes(path_str(root, path).join(" ").as_bytes()));
             }
